@@ -657,6 +657,11 @@ CATALOGUE['C02'] += [
   (S, None, 'core/_functions.py', "        slicedef.append(slicedef[-1] + 1 or None)", "        slicedef.append((slicedef[-1] + 1) or None)"),
 ]
 
+CATALOGUE['C01'] += [
+  (S, None, 'core/_files.py', "        if isinstance(self, netcdf):\n            if unlimited:\n                ndv = self.createDimension(key, None)\n            else:\n                ndv = self.createDimension(key, dimlen)\n        else:\n            ndv = self.createDimension(key, dimlen)\n            ndv.setunlimited(unlimited)", "        ondisk = isinstance(self, netcdf)\n        if ondisk and unlimited:\n            newlen = None\n        else:\n            newlen = dimlen\n        ndv = self.createDimension(key, newlen)\n        if not ondisk:\n            ndv.setunlimited(unlimited)"),
+  (F, 'R-UNLIM', 'core/_files.py', "        if isinstance(self, netcdf):\n            if unlimited:\n                ndv = self.createDimension(key, None)\n            else:\n                ndv = self.createDimension(key, dimlen)\n        else:\n            ndv = self.createDimension(key, dimlen)\n            ndv.setunlimited(unlimited)", "        ondisk = isinstance(self, netcdf)\n        if unlimited:\n            newlen = None\n        else:\n            newlen = dimlen\n        ndv = self.createDimension(key, newlen)\n        if not ondisk:\n            ndv.setunlimited(unlimited)"),
+]
+
 SEED_VARIANTS = {
  'C01': [('C01-x2', 'R-EVALDIMS'), ('C01-x3', 'R-NEWLEN'), ('C01-y1', 'R-STALEVAR'), ('C01-y3', 'R-GUARDOBJ'), ('C01-z1', 'R-ATTRLISTKIND'), ('C01-z3', 'R-NEWONLY'), ('C01-q1', 'R-NEWLEN'), ('C01-q2', 'R-NDSTORE')],
  'C02': [('C02-x3', 'R-FUZZYDIM'), ('C02-x2', 'R-ZIPAXIS'), ('C02-x1', 'R-FILLLOOK'), ('C02-y2', 'R-DTYPEFULL'), ('C02-z1', 'R-NONEGUARD'), ('C02-z2', 'R-ADVIDX'), ('C02-z3', 'R-NONEGUARD'), ('C02-q1', 'R-STOPPLUS1'), ('C02-q2', 'R-STOPPLUS1'), ('C02-q3', 'R-SELECTORRO'), ('C04-q1', 'R-ADVIDX')],
